@@ -11,29 +11,30 @@ From RJ Require Import Base.Prelude Base.OrderedPlan Model.Settings Model.Core M
    lacks are gone, and every other path - in particular everything the filters exclude - is unchanged. *)
 Theorem C01_mirror : forall now_z incl normalize chunker,
   (forall d, chunker d <> [] /\ concat (chunker d) = d) ->
-  forall dest_fl, (forall t, normalize (denormalize dest_fl (normalize t)) = normalize t) ->
-  forall cfg S D ans bits ls ld ft,
+  forall dest_fl cfg S D ans bits ls ld ft,
   valid_listing now_z incl normalize S ls -> valid_listing now_z incl normalize (d_fs D) ld ->
-  wf_fs S -> src_times_set S -> d_open D = None ->
+  wf_fs S -> src_times_set S -> links_roundtrip normalize dest_fl S -> d_open D = None ->
   let r := sync_one now_z normalize chunker cfg S D ans bits ls ld ft in
   r_ok r = true -> r_skipped r = [] -> r_root_skipped r = false -> cf_dry cfg = false ->
   no_through (d_events (r_dest r)) -> cf_fl cfg = dest_fl ->
-  mirror now_z incl normalize dest_fl S (d_fs D) (d_fs (r_dest r)).
+  mirror now_z incl normalize (cf_diff cfg) dest_fl S (d_fs D) (d_fs (r_dest r)).
 Proof. exact mirror_theorem. Qed.
 
 (* ... instantiated for the executable model (sorted listings, 4 KiB chunker, Unix link text). *)
 Theorem C01_mirror_executable : forall cfg S D a ans bits ex ft,
-  unique_keys S -> wf_fs S -> unique_keys D -> wf_fs D -> src_times_set S ->
+  unique_keys S -> wf_fs S -> unique_keys D -> wf_fs D -> src_times_set S -> links_utf8 S ->
   let r := run_top cfg S D a ans bits ex ft in
   r_ok r = true -> r_skipped r = [] -> r_root_skipped r = false -> cf_dry cfg = false ->
   no_through (d_events (r_dest r)) -> cf_fl cfg = Unix ->
-  mirror now_far (excl_incl ex) normalize_unix Unix S D (d_fs (r_dest r)).
+  mirror now_far (excl_incl ex) normalize_unix (cf_diff cfg) Unix S D (d_fs (r_dest r)).
 Proof. exact run_top_mirror. Qed.
 
 (* Link text: what is written on the destination has the same components as the source text for a
    relative target and is the text itself otherwise; and it normalises to the same target again. *)
-Theorem C01_link_text : forall t, same_path_text t (denormalize Unix (normalize_unix t)) = true.
+Theorem C01_link_text : forall t, lossy t = t -> same_path_text t (denormalize Unix (normalize_unix t)) = true.
 Proof. exact link_text_preserved. Qed.
+Theorem C01_utf8_text_is_in_domain : forall t, utf8_valid t = true -> lossy t = t.
+Proof. exact lossy_valid. Qed.
 
 (* The effective destination follows the documented trailing-slash table, cell by cell. *)
 Theorem C01_table : forall src ss dest ds, root_decision src ss dest ds = notes_table src ss dest ds.
